@@ -6,7 +6,8 @@ Bytes(ops) == Len(SelectSeq(ops, LAMBDA o : o < 256))
 Mon(r) ==
   /\ ~AnyAbnormal(r.e)
   /\ r.cap # -2
-  /\ IF r.cap = -3
+  /\ IF r.cap = -4 THEN \A k \in 1..Len(r.e) : r.e[k][2] \in {1, 3}      \* encoders: a frame or OutOfMemory, nothing else
+     ELSE IF r.cap = -3
      THEN \E k \in 1..Len(r.e) : r.e[k][2] = 1 /\ r.e[k][3] = 0 /\ r.e[k][1] \in {r.T, -1}
                                   /\ \A j \in (k + 1)..Len(r.e) : r.e[j][2] \in {10, 6}
      ELSE LET T == Bytes(r.ops) L == Len(r.e) IN
